@@ -85,6 +85,13 @@ func cmdRun(args []string) {
 	if m := params["maxsteps_m"]; m > 0 {
 		cfg.MaxSteps = int64(m) * 1_000_000
 	}
+	if v := os.Getenv("SYMGO_MAXWALL_S"); v != "" {
+		var n int
+		fmt.Sscan(v, &n)
+		if n > 0 {
+			cfg.MaxWall = time.Duration(n) * time.Second
+		}
+	}
 	pkgPath := interp.RepoModule
 	if *pkg != "" && *pkg != "." {
 		pkgPath += "/" + *pkg
